@@ -19,7 +19,20 @@ import (
 	"net/http"
 )
 
+// maxPrealloc is the largest body allocated ahead on the strength of a
+// Content-Length line alone.
+const maxPrealloc = 1 << 20
+
 func readAll(body io.Reader, length int64) ([]byte, error) {
+	if length > maxPrealloc {
+		// the peer chooses the declared length: memory is taken as the bytes
+		// arrive, and a body that ends early is still an error
+		data, err := ioutil.ReadAll(io.LimitReader(body, length))
+		if err == nil && int64(len(data)) < length {
+			err = io.ErrUnexpectedEOF
+		}
+		return data, err
+	}
 	if length > 0 {
 		data := make([]byte, length)
 		_, err := io.ReadFull(body, data)
